@@ -69,9 +69,9 @@ def run(tier, seed):
     t0 = time.time()
     d = C.scratch("c12")
     verdicts = C.Verdicts(PROP)
-    emit_cases = C.run_tlc("Gen_Project", "Gen_Project_emits", workers=2, timeout=600).json_lines("REPLAY")
+    emit_cases = C.run_tlc("Gen_Project", "Gen_Project_emits" if tier == "quick" else "Gen_Project_emits3", workers=4, timeout=900).json_lines("REPLAY")
     name_cases = C.run_tlc("Gen_Names", "Gen_Names_events", workers=2, timeout=600).json_lines("REPLAY")
-    if len(emit_cases) < 500 or len(name_cases) < 390:
+    if len(emit_cases) < 10000 or len(name_cases) < 390:
         raise C.ToolError("emit case generation incomplete: %d %d" % (len(emit_cases), len(name_cases)))
     rnd = random.Random(seed)
     rnd.shuffle(emit_cases)
@@ -85,26 +85,26 @@ def run(tier, seed):
             i = bi + j
             name = "ev%d-x" % i
             src += PC.emit_fn(i, c, name=name)
-            emits.append({"name": name, "receiver": c["receiver"], "placed": c["placed"], "lit": bool(c["lit"])})
+            emits.append({"name": name, "receiver": c["receiver"], "placed": c["placed"], "frames": list(c.get("frames") or []), "lit": bool(c["lit"])})
         projects.append(("place%d" % bi, src, emits))
     # (2) event names over Tauri's alphabet, packed so that names that collide after identifier derivation meet
-    std = {"receiver": "app", "placed": "ok_recv", "method": "emit", "lit": True}
+    std = {"receiver": "app", "placed": "ok_recv", "frames": [], "method": "emit", "lit": True}
     for bi in range(0, len(name_cases), 60):
         src = PC.EMIT_PRELUDE + "use tauri::Emitter;\n"
         emits = []
         for j, c in enumerate(name_cases[bi:bi + 60]):
             nm = cs(c["name"])
             src += PC.emit_fn(5000 + bi + j, std, name=nm)
-            emits.append({"name": nm, "receiver": "app", "placed": "ok_recv", "lit": True})
+            emits.append({"name": nm, "receiver": "app", "placed": "ok_recv", "frames": [], "lit": True})
         projects.append(("names%d" % bi, src, emits))
     # (3) repeated emission of one name from several functions and files; (4) a project without events
     src = PC.EMIT_PRELUDE + "use tauri::Emitter;\n"
     emits = []
     for j in range(3):
         src += PC.emit_fn(8000 + j, std, name="same-name")
-        emits.append({"name": "same-name", "receiver": "app", "placed": "ok_recv", "lit": True})
+        emits.append({"name": "same-name", "receiver": "app", "placed": "ok_recv", "frames": [], "lit": True})
     src += PC.emit_fn(8010, dict(std, method="emit_to"), name="same-name")
-    emits.append({"name": "same-name", "receiver": "app", "placed": "ok_recv", "lit": True})
+    emits.append({"name": "same-name", "receiver": "app", "placed": "ok_recv", "frames": [], "lit": True})
     projects.append(("repeat", src, emits))
     projects.append(("noevents", PC.EMIT_PRELUDE, []))
     # (5) payload forms
@@ -113,7 +113,7 @@ def run(tier, seed):
     for j, (pid, params, pre, expr, exp) in enumerate(PAYLOAD_FORMS):
         psrc += "pub fn pay_%s(app: tauri::AppHandle%s) {\n    %s\n    app.emit(\"pay-%s\", %s).ok();\n}\n" % (
             pid, (", " + params) if params else "", pre, pid.replace("_", "-"), expr)
-        pemits.append({"name": "pay-" + pid.replace("_", "-"), "receiver": "app", "placed": "ok_recv", "lit": True})
+        pemits.append({"name": "pay-" + pid.replace("_", "-"), "receiver": "app", "placed": "ok_recv", "frames": [], "lit": True})
     psrc += "#[tauri::command]\npub fn keep_pay(p: Pay) {}\n"
     projects.append(("payloads", psrc, pemits))
 
@@ -149,8 +149,9 @@ def run(tier, seed):
         reported = False
         for nm in sorted(required - subs):
             em = by_name.get(nm, {})
-            verdicts.reject("missing placed=%s receiver=%s name~%s" % (em.get("placed"), em.get("receiver"), name_shape(nm)), "no listener",
-                            "event '%s' emitted at placement %s on receiver %s has no listener (mode %s)" % (nm, em.get("placed"), em.get("receiver"), ev["case"]),
+            fr = "/".join(em.get("frames") or []) or "-"
+            verdicts.reject("missing frames=%s placed=%s receiver=%s name~%s" % (fr, em.get("placed"), em.get("receiver"), name_shape(nm)), "no listener",
+                            "event '%s' emitted at placement %s inside frames [%s] on receiver %s has no listener (mode %s)" % (nm, em.get("placed"), fr, em.get("receiver"), ev["case"]),
                             {"emit": em, "case": ev["case"]})
             reported = True
         opt = {e["name"] for e in ev["emits"] if e["name"] not in required}
